@@ -387,6 +387,27 @@ impl FrameQueue {
     }
 }
 
+#[cfg(uflow_verif)]
+impl FrameQueue {
+    pub fn verif_dump(&self) -> String {
+        format!("wbase={} next={} lbase={} llen={} rl={} {}",
+                self.window.base_id, self.frame_log.next_id(), self.frame_log.base_id(), self.frame_log.len(),
+                self.rate_limited as u8, self.feedback_gen.verif_dump())
+    }
+}
+
+#[cfg(uflow_verif)]
+impl FeedbackGen {
+    pub fn verif_dump(&self) -> String {
+        let ad = match self.ack_data {
+            Some(ref d) => format!("{}:{}:{}", d.last_send_time_ms, d.total_ack_size, d.rate_limited as u8),
+            None => "-".to_string(),
+        };
+        let lf = match self.last_feedback_ms { Some(v) => format!("{}", v), None => "-".to_string() };
+        format!("lf={} ad={} {} {}", lf, ad, self.reorder_buffer.verif_dump(), self.loss_intervals.verif_dump())
+    }
+}
+
     /*
     pub fn step(&mut self, now_ms: u64) {
         self.send_rate_comp.step(now_ms, self.frame_queue.get_feedback(now_ms),
